@@ -16,8 +16,10 @@ HEAD=$(git -C /repo rev-parse HEAD)
 if [ ! -d "$BASE/wt" ]; then
   git -C /repo worktree add --detach "$BASE/wt" "$HEAD" >/dev/null 2>&1 || { echo "cannot create worktree" >&2; exit 2; }
 fi
-git -C "$BASE/wt" checkout -q --detach "$HEAD" 2>/dev/null
-git -C "$BASE/wt" checkout -q -- . && git -C "$BASE/wt" clean -fdq -e target
+git -C "$BASE/wt" checkout -q -- . 2>/dev/null; git -C "$BASE/wt" clean -fdq -e target
+git -C "$BASE/wt" checkout -q --force --detach "$HEAD" || { echo "cannot check out $HEAD in the scratch worktree" >&2; exit 2; }
+[ "$(git -C "$BASE/wt" rev-parse HEAD)" = "$HEAD" ] || { echo "scratch worktree is not at $HEAD" >&2; exit 2; }
+case "$PATCH" in -|/*) ;; *) PATCH="$PWD/$PATCH";; esac
 if [ "$PATCH" != "-" ]; then
   git -C "$BASE/wt" apply "$PATCH" || { echo "patch does not apply" >&2; exit 2; }
 fi
@@ -26,7 +28,7 @@ rsync -a --delete --exclude target /verif/harness/ "$BASE/harness/"
 sed -i "s#/repo/crates#$BASE/wt/crates#g" "$BASE/harness/Cargo.toml"
 export CARGO_NET_OFFLINE=true CARGO_TARGET_DIR="$BASE/harness/target"
 (cd "$BASE/harness" && cargo build --release --offline -q -p "$pkg" 2>"$BASE/build.log") || { tail -n 30 "$BASE/build.log" >&2; echo "BUILD-FAILED" ; exit 2; }
-VERIF_OUT="$BASE/out" VERIF_KNOWN=/verif/known_findings.json VERIF_REPO="$BASE/wt" timeout "${VERIF_TIMEOUT:-3600}" "$CARGO_TARGET_DIR/release/$pkg" "$@" </dev/null
+VERIF_OUT="$BASE/out" VERIF_KNOWN="${VERIF_KNOWN:-/verif/known_findings.json}" VERIF_REPO="$BASE/wt" timeout "${VERIF_TIMEOUT:-3600}" "$CARGO_TARGET_DIR/release/$pkg" "$@" </dev/null
 rc=$?
 echo "mutest: $ID exit=$rc"
 exit $rc
